@@ -77,6 +77,8 @@ def proofs_and_dispatch(entries, stubs=("format",)):
         attrs = f"#[cfg(kani)]\n#[kani::proof]\n#[kani::unwind({unwind})]\n"
         if "format" in stubs:
             attrs += "#[kani::stub(alloc::fmt::format, fake_format)]\n"
+        if "countchars" in stubs and not name.startswith("lemma_count_chars"):
+            attrs += "#[kani::stub(core::str::count::count_chars, vrt::count_chars_model)]\n"
         if "backtrace" in stubs:
             attrs += "#[kani::stub(std::backtrace::Backtrace::capture, fake_capture)]\n"
         out.append(f"{attrs}fn {name}() {{\n    let src = &mut vrt::KaniSrc;\n    {call};\n}}\n")
@@ -87,7 +89,7 @@ def proofs_and_dispatch(entries, stubs=("format",)):
     return "\n".join(out)
 
 
-def assemble(name, body_rs, entries, stubs=("format",), deps_codegen=False, extra_files=None):
+def assemble(name, body_rs, entries, stubs=("format", "countchars"), deps_codegen=False, extra_files=None):
     lib = f'include!("{kani.RT}");\n' + body_rs + "\n" + proofs_and_dispatch(entries, stubs)
     files = {"src/lib.rs": lib, "src/main.rs": MAIN_RS.replace("CRATE", name)}
     if extra_files:
